@@ -358,6 +358,18 @@ Definition dec_metadata (data : list Z) : result (Z * list (list Z) * option (li
   bind (dec_subs (S (length data)) (fst nr) (snd nr) []) (fun sr =>
   bind (read_int_string (snd sr)) (fun ur => Ok (fst vr, fst sr, fst ur))))).
 
+(* ---- _group.py:612-616 generate_assignments from the members' metadata BYTES: decode every member in the order
+        received (the first undecodable one raises), then assign.  Names are the UTF-8 byte strings of the wire here
+        (for ASCII names: the code points); ids stay text. *)
+Fixpoint decode_members (raw : list (str * list Z)) : result (list (str * list str)) :=
+  match raw with
+  | [] => Ok []
+  | (m, b) :: r => bind (dec_metadata b) (fun x =>
+                   bind (decode_members r) (fun l => Ok ((m, snd (fst x)) :: l)))
+  end.
+Definition generate_assignments_raw (raw : list (str * list Z)) (tp : tpmap) : result (list (str * list Z)) :=
+  bind (decode_members raw) (fun members => generate_assignments members tp).
+
 (* ---- vocabulary of the statements in Props/C15.v -------------------------------------------- *)
 (* does member m list topic t in its subscriptions *)
 Definition subscribed (md : mdict) (m t : str) : bool :=
@@ -378,6 +390,16 @@ Definition tp_equiv (tp tp' : tpmap) : Prop :=
             | None, None => True
             | _, _ => False
             end.
+(* the snapshot the leader got from client._load_topic_partitions (client.py:412-424) has an entry for each
+   topic it asked for, i.e. for every subscribed topic ("An entry is present for each requested topic") *)
+Definition snapshot_covers (members : list (str * list str)) (tp : tpmap) : bool :=
+  forallb (fun t => match dict_get tp t with Some _ => true | None => false end) (all_topics (build_md members)).
+(* two member lists with the same ids in the same order whose subscriptions agree as SETS (names reordered / repeated) *)
+Definition subs_equiv (members members' : list (str * list str)) : Prop :=
+  Forall2 (fun m m' => fst m = fst m' /\ forall t, In t (snd m) <-> In t (snd m')) members members'.
+(* raw = what the coordinator hands the leader when every member wrote its subscriptions with the real encoder *)
+Definition encoded_members (members : list (str * list str)) (raw : list (str * list Z)) : Prop :=
+  Forall2 (fun m r => fst r = fst m /\ exists v ud, enc_metadata v (snd m) ud = Ok (snd r)) members raw.
 (* ranges under which the leader's encoder cannot raise *)
 Definition topic_ok (t : str) : bool := forallb is_ascii t && (len t <=? 32767).
 Definition adict_ok (d : adict) : bool :=
